@@ -178,15 +178,25 @@ def make_rough_component(rng, nx, na, ny, levels, kpl):
     return comp, fns
 
 
-def grow(rng, comp, na, mx, steps):
+def grow(rng, comp, na, mx, steps, through_executor=False):
     active = set()
-    for _ in range(steps):
-        m = margin(active, mx)
-        if not m:
-            break
-        c = rng.choice(m)
-        comp.activate_index(tuple(c[:na]), tuple(c[na:]))
-        active.add(c)
+    ex = saved = None
+    if through_executor:      # the evaluations of every batch (mixed fidelities) as separate tasks, completed in a random order
+        import c15, random as _random
+        ex = c15.SchedExecutor(lambda m, _r=_random.Random(rng.getrandbits(30)): _r.sample(range(m), m))
+        saved = c15.install_wait(ex)
+    try:
+        for _ in range(steps):
+            m = margin(active, mx)
+            if not m:
+                break
+            c = rng.choice(m)
+            comp.activate_index(tuple(c[:na]), tuple(c[na:]), executor=ex)
+            active.add(c)
+    finally:
+        if saved is not None:
+            import c15
+            c15.restore_wait(saved)
     return active
 
 
@@ -211,8 +221,9 @@ def component_cases(ctx: Ctx):
             comp.clear(); comp.training_data.clear()
             fns[:] = [rough_fn({'c0': rng.randint(-2, 2) / 2, 't': [(rng.randint(-3, 3) / 2, rng.random(), rng.randint(-2, 2) / 4) for _ in range(nx)],
                                 'a': [rng.randint(1, 3) / 4 for _ in range(na)]}) for _ in range(ny)]
-        active = grow(rng, comp, na, mx, rng.randint(1, 6 if nx < 3 else 4))
-        case0 = {'nx': nx, 'na': na, 'ny': ny, 'kpl': kpl, 'levels': levels, 'active': sorted(active), 'object_reused_after_clear': reused}
+        via_ex = n % 4 == 1      # every fourth component is trained through an executor
+        active = grow(rng, comp, na, mx, rng.randint(1, 6 if nx < 3 else 4), through_executor=via_ex)
+        case0 = {'nx': nx, 'na': na, 'ny': ny, 'kpl': kpl, 'levels': levels, 'active': sorted(active), 'object_reused_after_clear': reused, 'trained_through_executor': via_ex}
         td = comp.training_data
         for mode in ('train', 'test'):
             iset = comp.active_set if mode == 'train' else comp.active_set.union(comp.candidate_set)
